@@ -44,6 +44,9 @@ func c01wpaths() []c01wpath {
 		for _, f1 := range c01wFilters {
 			out = append(out, c01wpath{n, []string{f1}, nil, false, ""})
 			out = append(out, c01wpath{n, []string{f1}, nil, false, "same-client-id-in-other-tenant"})
+			// on every node a session subscribed to '#' before everybody else (so listed first) whose connection fails
+			// every write from the moment of the publishes on, and is still registered: that delivery fails, no other does
+			out = append(out, c01wpath{n, []string{f1}, nil, false, "an-earlier-recipient's-writes-fail"})
 			// the message recorder (tap) is slower than the publisher: a burst of 48 publishes while it takes 1 s per message
 			out = append(out, c01wpath{n, []string{f1}, nil, false, "slow-message-recorder"})
 			if n == 2 {
@@ -140,6 +143,16 @@ func TestC01Wire(t *testing.T) {
 					w.GossipLazy = true
 					w.Leave(3)
 				}
+				var bad []*Client
+				if p.Env == "an-earlier-recipient's-writes-fail" {
+					for k := range w.Nodes {
+						b := w.NewClient(fmt.Sprintf("bad-%d", k+1), k+1, AckAll)
+						b.Connect(ConnectOpts{ClientID: b.Name, KeepAlive: 600})
+						b.Subscribe(1, int32(k%2), "#") // QoS 0 on node 1, QoS 1 on node 2
+						bad = append(bad, b)
+					}
+					w.Step()
+				}
 				s2filters := []string{"+/b", "#"}
 				if p.Env == "quiet-publisher-node" {
 					s2filters = nil
@@ -199,6 +212,9 @@ func TestC01Wire(t *testing.T) {
 				if s1.BrokerClosed() {
 					viol("c01-wire-session-ended", "after %q the broker ended the subscribed session", p.Env)
 					return
+				}
+				for _, b := range bad {
+					b.FailBrokerWrites(true)
 				}
 				rounds := 1
 				if p.Env == "slow-message-recorder" {
